@@ -143,6 +143,8 @@ class Evaluator:
                 self.bind(x, y, env)
         elif isinstance(t, ast.Subscript) and isinstance(t.value, ast.Name) and isinstance(env.get(t.value.id), dict):
             env[t.value.id][self.ev(t.slice, env)] = v
+        elif isinstance(t, ast.Attribute):
+            env[core.src(t)] = v
         else:
             raise Unknown(f"assignment target '{core.norm(core.src(t), 40)}'")
 
@@ -164,6 +166,8 @@ class Evaluator:
                 return {"True": True, "False": False, "None": None}[e.id]
             if e.id in ("np", "numpy", "os", "sys", "math", "warnings", "pathlib"):
                 return Opaque("module:" + e.id)
+            if getattr(self, "lenient_names", False):
+                return Opaque("name:" + e.id)
             raise Unknown(f"name '{e.id}'")
         if isinstance(e, ast.JoinedStr):
             return Opaque("fstring", ())
@@ -185,9 +189,16 @@ class Evaluator:
                 h = self.hooks["attr:" + e.attr]
                 return h(base) if callable(h) else h
             return Opaque("attr:" + e.attr, (_freeze(base),))
+        if isinstance(e, ast.Slice):
+            lo = self.ev(e.lower, env) if e.lower is not None else None
+            hi = self.ev(e.upper, env) if e.upper is not None else None
+            st_ = self.ev(e.step, env) if e.step is not None else None
+            return ("slice", lo, hi, st_)
         if isinstance(e, ast.Subscript):
             base = self.ev(e.value, env)
             k = self.ev(e.slice, env)
+            if isinstance(k, tuple) and len(k) == 4 and k[0] == "slice" and isinstance(base, (list, tuple, str)) and all(x is None or isinstance(x, int) for x in k[1:]):
+                return base[slice(k[1], k[2], k[3])]
             if isinstance(base, dict):
                 if k in base:
                     return base[k]
@@ -251,6 +262,10 @@ class Evaluator:
                         return a / b
                     if isinstance(e.op, ast.Pow):
                         return a**b
+                    if isinstance(e.op, ast.FloorDiv):
+                        return a // b
+                    if isinstance(e.op, ast.Mod):
+                        return a % b
                 except ZeroDivisionError:
                     raise Raised("ZeroDivisionError")
             if isinstance(a, str) and isinstance(e.op, (ast.Add, ast.Mod)):
@@ -282,6 +297,7 @@ class Evaluator:
                 kw = {k.arg: self.ev(k.value, env) for k in e.keywords if k.arg}
                 sub = Evaluator(None, self.hooks, self.consts, self.where, self.depth + 1)
                 sub.fns = self.fns
+                sub.lenient_names = getattr(self, "lenient_names", False)
                 return sub.call(self.fns[e.func.id], args, kw)
             if f in ("float", "int") and len(e.args) == 1:
                 v = self.ev(e.args[0], env)
